@@ -176,7 +176,7 @@ func newC14BeaconWorld(w *c14World, phase string) *c14BeaconWorld {
 	if phase == "stopped" {
 		b.bp.StopBeacon(context.Background())
 	}
-	b.dd = core.VerifNewDaemon(quietLogger(), nil, map[string]*core.BeaconProcess{c14BeaconID: b.bp})
+	b.dd = core.VerifNewDaemonC14(quietLogger(), nil, map[string]*core.BeaconProcess{c14BeaconID: b.bp})
 	// the production constructor of the peer-facing gateway (listener with its interceptor chain + clients)
 	b.gw, err = dnet.NewGRPCPrivateGateway(context.Background(), "127.0.0.1:0", b.dd)
 	mustOK("NewGRPCPrivateGateway", err)
